@@ -76,6 +76,7 @@ func comment(text int, name, indent string) string {
 var shapes = []string{
 	"exported-struct", "unexported-struct", "generic-struct", "embeds-struct-by-value", "embeds-struct-by-pointer",
 	"only-unexported-fields", "defined-string", "defined-map-slice-func", "interface", "odd-field-types", "embeds-unexported-and-non-struct",
+	"fields-of-generic-instantiations-and-local-named-types",
 }
 
 type Prog struct {
@@ -169,6 +170,18 @@ func (p Prog) source(pkg string) (src, check string) {
 		expect("T.Local", "new(T)", []string{"Local"}, fieldDoc("Local"), true)
 		expect("T.Ptr", "new(T)", []string{"Ptr"}, fieldDoc("Ptr"), true)
 		expect("Sub", "new(Sub)", nil, []string{"is local."}, true)
+	case "fields-of-generic-instantiations-and-local-named-types":
+		b.WriteString(td("T") + "type T struct {\n" + fd("F") + "\tF Box[int]\n" + fd("P") + "\tP *Box[string]\n" + fd("N") + "\tN Named\n" + fd("Q") + "\tQ hidden\n" + fd("L") + "\tL []Box[Named]\n}\n\n// Box is generic.\ntype Box[X any] struct {\n\t// the boxed value\n\tV X\n}\n\n// Named is a defined string.\ntype Named string\n\ntype hidden struct {\n\tH int\n}\n")
+		expect("T", "new(T)", nil, typeDoc("T"), true)
+		expect("T.F", "new(T)", []string{"F"}, fieldDoc("F"), true)
+		expect("T.P", "new(T)", []string{"P"}, fieldDoc("P"), true)
+		expect("T.N", "new(T)", []string{"N"}, fieldDoc("N"), true)
+		expect("T.Q", "new(T)", []string{"Q"}, fieldDoc("Q"), true)
+		expect("T.L", "new(T)", []string{"L"}, fieldDoc("L"), true)
+		expect("Box[int]", "new(Box[int])", nil, []string{"is generic."}, true)
+		expect("Box[Named].V", "new(Box[Named])", []string{"V"}, []string{"the boxed value"}, true)
+		expect("Named", "new(Named)", nil, []string{"is a defined string."}, true)
+		fmt.Fprintf(&cb, "\tchecks++\n\tif verifkit.HasRuntimeDoc(new(hidden)) {\n\t\tfails = append(fails, \"unexported type hidden is covered\")\n\t}\n")
 	case "embeds-unexported-and-non-struct":
 		b.WriteString(td("T") + "type T struct {\n\tinner\n\tStr\n" + fd("F") + "\tF int\n}\n\ntype inner struct {\n\t// IF doc\n\tIF int\n}\n\n// Str is a defined string.\ntype Str string\n")
 		expect("T", "new(T)", nil, typeDoc("T"), true)
@@ -341,7 +354,7 @@ func replay(c *core.Ctx, raw json.RawMessage) {
 func init() {
 	core.Register(&core.Prop{
 		ID: "C16", Level: "model_checking", Run: run, Replay: replay, Shards: 4,
-		Rule: "11 type shapes (exported/unexported/generic structs, embedding by value and by pointer, only-unexported fields, defined string/map/slice/func, interface, anonymous/empty/foreign/pointer field types, embedding of unexported and non-struct types) x 14 type-doc texts x 11 field-doc texts (quotes, backslashes, backquotes, %, @name', Unicode, blank line, tag line, leading name, name twice, longer word with the name as prefix); thorough: full product, quick: the diagonal + everything against none/plain/leading-name + a third of the rest. Each package is generated twice (byte-identical), compiled with the package and a harness-written check file, and run: RuntimeDoc() and RuntimeDoc(name) for every field, delegated field and unknown name vs the doc lines the harness wrote. Non-trivial = some doc text present; states = (shape, failed?)",
+		Rule: "12 type shapes (exported/unexported/generic structs, embedding by value and by pointer, only-unexported fields, defined string/map/slice/func, interface, anonymous/empty/foreign/pointer field types, embedding of unexported and non-struct types) x 14 type-doc texts x 11 field-doc texts (quotes, backslashes, backquotes, %, @name', Unicode, blank line, tag line, leading name, name twice, longer word with the name as prefix); thorough: full product, quick: the diagonal + everything against none/plain/leading-name + a third of the rest. Each package is generated twice (byte-identical), compiled with the package and a harness-written check file, and run: RuntimeDoc() and RuntimeDoc(name) for every field, delegated field and unknown name vs the doc lines the harness wrote. Non-trivial = some doc text present; states = (shape, failed?)",
 		Assumptions: []string{
 			"field docs starting with the field name, embedded fields with their own doc, [[embed]] lines and lines starting with go: are outside the alphabet",
 			"'leading type name removed' is read as: the first word is the name",
